@@ -17,11 +17,11 @@ namespace Stack
 
 /-- `protect(count)` -/
 def protect (s : Stack) (count : Nat) : Res Stack :=
-  if s.items.length < count then .err else .ok { s with protected_ := s.protected_ + count }
+  if s.items.length < count then .stuck else .ok { s with protected_ := s.protected_ + count }
 
 /-- `restore(count)` -/
 def restore (s : Stack) (count : Nat) : Res Stack :=
-  if s.protected_ < count then .err else .ok { s with protected_ := s.protected_ - count }
+  if s.protected_ < count then .stuck else .ok { s with protected_ := s.protected_ - count }
 
 /-- `push(item)`: `items.insert(protected, item)` (Python's insert clamps the index) -/
 def push (s : Stack) (v : Val) : Stack :=
@@ -29,49 +29,47 @@ def push (s : Stack) (v : Val) : Stack :=
 
 /-- `peek()` -/
 def peek (s : Stack) : Res Val :=
-  if s.items.isEmpty then .err
+  if s.items.isEmpty then .stuck
   else match s.items[s.protected_]? with
     | some v => .ok v
-    | none => .err
+    | none => .stuck
 
 /-- `pop(count)`: `[items.pop(protected) for _ in range(count)]` -/
 def pop (s : Stack) (count : Nat) : Res (List Val × Stack) :=
-  if s.items.length - s.protected_ < count then .err
+  if s.items.length - s.protected_ < count then .stuck
   else .ok ((s.items.drop s.protected_).take count,
             { s with items := s.items.take s.protected_ ++ (s.items.drop s.protected_).drop count })
 
 def pop1 (s : Stack) : Res (Val × Stack) :=
-  match s.pop 1 with
-  | .ok ([a], s') => .ok (a, s')
-  | .ok _ => .err
-  | .failed v => .failed v
-  | .err => .err
+  (s.pop 1).bind fun p =>
+    match p with
+    | ([a], s') => .ok (a, s')
+    | _ => .stuck
 
 def pop2 (s : Stack) : Res (Val × Val × Stack) :=
-  match s.pop 2 with
-  | .ok ([a, b], s') => .ok (a, b, s')
-  | .ok _ => .err
-  | .failed v => .failed v
-  | .err => .err
+  (s.pop 2).bind fun p =>
+    match p with
+    | ([a, b], s') => .ok (a, b, s')
+    | _ => .stuck
 
 def pop3 (s : Stack) : Res (Val × Val × Val × Stack) :=
-  match s.pop 3 with
-  | .ok ([a, b, c], s') => .ok (a, b, c, s')
-  | .ok _ => .err
-  | .failed v => .failed v
-  | .err => .err
+  (s.pop 3).bind fun p =>
+    match p with
+    | ([a, b, c], s') => .ok (a, b, c, s')
+    | _ => .stuck
 
 end Stack
 
 namespace Impl
 
-/-- `XType.from_value(v)` for the integer classes: `nat` asserts `v ≥ 0`; `mutez` asserts `v ≥ 0` and at most 63 bits -/
+/-- `XType.from_value(v)` for the integer classes: `nat` asserts `v ≥ 0`; `mutez` asserts `v ≥ 0` and at most 63 bits
+(the assertion failing is the *runtime failure* outcome: the operation fails, e.g. on mutez overflow) -/
 def numFromValue (t : Ty) (v : Int) : Res Val :=
   match t with
   | .int | .timestamp => .ok (.num t v)
-  | .nat => if v ≥ 0 then .ok (.num .nat v) else .err
-  | .mutez => if v ≥ 0 ∧ v < 2 ^ 63 then .ok (.num .mutez v) else .err
-  | _ => .err
+  | .nat => if v ≥ 0 then .ok (.num .nat v) else .rtfail
+  | .mutez => if v ≥ 0 ∧ v < 2 ^ 63 then .ok (.num .mutez v) else .rtfail
+  | _ => .stuck
 
 /-- `dispatch_types` table of ADD (integer classes only; BLS is C21) -/
 def addTy : Ty → Ty → Option Ty
@@ -144,8 +142,8 @@ def pyXor : Int → Int → Int
 def execShift (shift : Int → Nat → Int) (a b : Val) : Res Val :=
   match a, b with
   | .num .nat x, .num .nat y =>
-    if y < 257 then (if y < 0 then .err else numFromValue .nat (shift x y.toNat)) else .err
-  | _, _ => .err
+    if y < 257 then (if y < 0 then .stuck else numFromValue .nat (shift x y.toNat)) else .rtfail
+  | _, _ => .stuck
 
 /-- Python `<` on two lists of ints (str / bytes comparison) -/
 def listLt : List Nat → List Nat → Bool
@@ -167,21 +165,21 @@ def compareVals : Val → Val → Option Int
 /-- `ListType.from_items(items)` as used by MAP: element class = class of the first item -/
 def listFromItems (items : List Val) : Res Val :=
   match items with
-  | [] => .err
-  | x :: rest => if rest.all (fun y => typeOf y = typeOf x) then .ok (.list (typeOf x) items) else .err
+  | [] => .stuck
+  | x :: rest => if rest.all (fun y => typeOf y = typeOf x) then .ok (.list (typeOf x) items) else .stuck
 
 /-- `MapType.from_items` as used by MAP over a map (items are `(key, value)` in the source order) -/
 def mapFromItems (items : List Val) : Res Val :=
   match items with
   | .pair k v :: rest =>
-    if rest.all (fun y => typeOf y = .pair (typeOf k) (typeOf v)) then .ok (.map (typeOf k) (typeOf v) items) else .err
-  | _ => .err
+    if rest.all (fun y => typeOf y = .pair (typeOf k) (typeOf v)) then .ok (.map (typeOf k) (typeOf v) items) else .stuck
+  | _ => .stuck
 
 /-- `PairType.from_comb(items)`: `create_type` asserts at least two items, `init` nests to the right -/
 def fromComb : List Val → Res Val
   | [a, b] => .ok (.pair a b)
   | a :: b :: c :: rest => (fromComb (b :: c :: rest)).bind fun r => .ok (.pair a r)
-  | _ => .err
+  | _ => .stuck
 
 /-- `PairType.iter_comb(include_nodes)`: `yield self` (with nodes), then the first item, then — `i == 1` — the
 second item's own `iter_comb` if it is a pair, else the item itself (the last equation) -/
@@ -228,8 +226,8 @@ def execEdiv (a b : Val) : Res Val :=
         let r ← numFromValue rt (pyEdiv x y).2
         let p ← fromComb [q, r]
         pure (.some p)
-    | none => .err
-  | _, _ => .err
+    | none => .stuck
+  | _, _ => .stuck
 
 /-- SUB_MUTEZ after `pop2` -/
 def execSubMutez (a b : Val) : Res Val :=
@@ -237,7 +235,7 @@ def execSubMutez (a b : Val) : Res Val :=
   | .num .mutez x, .num .mutez y =>
     if x < y then .ok (.none .mutez)
     else do let r ← numFromValue .mutez (x - y); pure (.some r)
-  | _, _ => .err
+  | _, _ => .stuck
 
 /-- AND after `pop2`: `dispatch_types` {(bool,bool), (nat,nat), (nat,int), (int,nat)} then `from_value(convert(a) & convert(b))` -/
 def execAnd (a b : Val) : Res Val :=
@@ -246,20 +244,20 @@ def execAnd (a b : Val) : Res Val :=
   | .num .nat x, .num .nat y => numFromValue .nat (pyAnd x y)
   | .num .nat x, .num .int y => numFromValue .nat (pyAnd x y)
   | .num .int x, .num .nat y => numFromValue .nat (pyAnd x y)
-  | _, _ => .err
+  | _, _ => .stuck
 
 /-- OR / XOR (`execute_boolean_add`): {(bool,bool), (nat,nat)} -/
 def execOr (a b : Val) : Res Val :=
   match a, b with
   | .bool x, .bool y => .ok (.bool (x || y))
   | .num .nat x, .num .nat y => numFromValue .nat (pyOr x y)
-  | _, _ => .err
+  | _, _ => .stuck
 
 def execXor (a b : Val) : Res Val :=
   match a, b with
   | .bool x, .bool y => .ok (.bool (x != y))
   | .num .nat x, .num .nat y => numFromValue .nat (pyXor x y)
-  | _, _ => .err
+  | _, _ => .stuck
 
 /-- `a == b` (`__eq__`) on the key classes of the model: `IntType` and its subclasses compare their values
 (`isinstance(other, IntType)`), strings / bytes / booleans their contents, `UnitType` is equal to itself -/
@@ -299,12 +297,12 @@ def isPairVal : Val → Bool
 def execMem (key src : Val) : Res Val :=
   match src with
   | .set t xs =>
-    if keyModelled t && typeOf key == t then .ok (.bool (_root_.Impl.Coll.Set.contains valEq xs key)) else .err
+    if keyModelled t && typeOf key == t then .ok (.bool (_root_.Impl.Coll.Set.contains valEq xs key)) else .stuck
   | .map k _ items =>
     if keyModelled k && items.all isPairVal && typeOf key == k then
       .ok (.bool (_root_.Impl.Coll.Map.contains valEq (items.map toKV) key))
-    else .err
-  | _ => .err
+    else .stuck
+  | _ => .stuck
 
 /-- GET after `pop2`: `MapType.get` then `OptionType.none(src.args[1])` / `from_some` -/
 def execGet (key src : Val) : Res Val :=
@@ -314,15 +312,15 @@ def execGet (key src : Val) : Res Val :=
       match _root_.Impl.Coll.Map.get valEq (items.map toKV) key with
       | some y => .ok (.some y)
       | none => .ok (.none v)
-    else .err
-  | _ => .err
+    else .stuck
+  | _ => .stuck
 
 /-- `src.update(key, None if val.is_none() else val.get_some())` → `(prev_val, dst)` -/
 def mapUpdate (k v : Ty) (items : List Val) (key : Val) (val : Option Val) : Res (Option Val × Val) :=
   if keyModelled k && items.all isPairVal && typeOf key == k then
     let r := _root_.Impl.Coll.Map.update valEq valLt (items.map toKV) key val
     .ok (r.1, .map k v (r.2.map ofKV))
-  else .err
+  else .stuck
 
 /-- UPDATE after `pop3`: a `bool` selects `SetType.add` / `remove`, an `option` goes to `MapType.update` -/
 def execUpdate (key val src : Val) : Res Val :=
@@ -330,10 +328,10 @@ def execUpdate (key val src : Val) : Res Val :=
   | .bool b, .set t xs =>
     if keyModelled t && typeOf key == t then
       .ok (.set t (if b then _root_.Impl.Coll.Set.add valEq valLt xs key else _root_.Impl.Coll.Set.remove valEq xs key))
-    else .err
+    else .stuck
   | .none _, .map k v items => (mapUpdate k v items key none).bind fun r => .ok r.2
   | .some y, .map k v items => (mapUpdate k v items key (some y)).bind fun r => .ok r.2
-  | _, _ => .err
+  | _, _ => .stuck
 
 /-- GET_AND_UPDATE after `pop3`: `(res, dst)`; `res` is pushed last -/
 def execGetAndUpdate (key val src : Val) : Res (Val × Val) :=
@@ -342,13 +340,13 @@ def execGetAndUpdate (key val src : Val) : Res (Val × Val) :=
     (mapUpdate k v items key none).bind fun r => .ok ((match r.1 with | some p => Val.some p | none => Val.none v), r.2)
   | .some y, .map k v items =>
     (mapUpdate k v items key (some y)).bind fun r => .ok ((match r.1 with | some p => Val.some p | none => Val.none v), r.2)
-  | _, _ => .err
+  | _, _ => .stuck
 
 /-- `execute_hash` after `pop1`: `assert_type_equal(BytesType)`, `BytesType.from_value(hash_digest(bytes(a)))` -/
 def execHash (h : List Nat → List Nat) (a : Val) : Res Val :=
   match a with
   | .bytes b => .ok (.bytes (h b))
-  | _ => .err
+  | _ => .stuck
 
 def strVals : List Val → Option (List (List Nat))
   | [] => some []
@@ -372,7 +370,7 @@ def stepMore (env : Env) (i : Instr) (s : Stack) : Res Stack :=
   | .SHA3 => do let (a, s) ← s.pop1; let r ← execHash env.hashes.sha3 a; pure (s.push r)
   | .CAST _ => do let (a, s) ← s.pop1; pure (s.push a)      -- the cast itself is commented out in the source
   | .RENAME => pure s
-  | _ => .err
+  | _ => .stuck
 
 /-- instructions that touch only the top of the stack -/
 def step (env : Env) (i : Instr) (s : Stack) : Res Stack :=
@@ -381,7 +379,7 @@ def step (env : Env) (i : Instr) (s : Stack) : Res Stack :=
   | .DROPN n => do let (_, s) ← s.pop n; pure s
   | .DUP => do let a ← s.peek; pure (s.push a)
   | .DUPN n =>
-    if n = 0 then .err   -- `DUP 0` is rejected by Tezos; outside the modelled domain
+    if n = 0 then .stuck   -- `DUP 0` is rejected by Tezos; outside the modelled domain
     else do
       let s ← s.protect (n - 1)
       let a ← s.peek
@@ -404,8 +402,8 @@ def step (env : Env) (i : Instr) (s : Stack) : Res Stack :=
       let (left, lam, s) ← s.pop2
       match lam with
       | .lam (.pair lt rt) b body =>
-        if typeOf left = lt then pure (s.push (.lam rt b (.seq [.PUSH lt left, .PAIR, body]))) else .err
-      | _ => .err
+        if typeOf left = lt then pure (s.push (.lam rt b (.seq [.PUSH lt left, .PAIR, body]))) else .stuck
+      | _ => .stuck
   | .FAILWITH => do let (a, _) ← s.pop1; .failed a
   | .UNIT => pure (s.push .unit)
   | .PAIR => do let (a, b, s) ← s.pop2; pure (s.push (.pair a b))
@@ -413,20 +411,20 @@ def step (env : Env) (i : Instr) (s : Stack) : Res Stack :=
       let (p, s) ← s.pop1
       match p with
       | .pair a b => pure ((s.push b).push a)
-      | _ => .err
+      | _ => .stuck
   | .PAIRN n =>
-      if n < 2 then .err      -- `assert count >= 2`
+      if n < 2 then .stuck      -- `assert count >= 2`
       else do
         let (leaves, s) ← s.pop n
         let r ← fromComb leaves
         pure (s.push r)
   | .UNPAIRN n =>
-      if n < 2 then .err
+      if n < 2 then .stuck
       else do
         let (p, s) ← s.pop1
         match p with
         | .pair _ _ => pure ((unpairnComb (n - 2) p).reverse.foldl Stack.push s)
-        | _ => .err
+        | _ => .stuck
   | .GETN n => do
       let (p, s) ← s.pop1
       if n = 0 then pure (s.push p)      -- `GET 0` is the identity on any value
@@ -434,24 +432,24 @@ def step (env : Env) (i : Instr) (s : Stack) : Res Stack :=
         | .pair _ _ =>
           match (iterComb true p)[n]? with      -- `access_comb`: `next(…)` raises when the index is past the end
           | some r => pure (s.push r)
-          | none => .err
-        | _ => .err
+          | none => .stuck
+        | _ => .stuck
   | .UPDATEN n => do
       let (element, p, s) ← s.pop2
       if n = 0 then pure (s.push element)      -- `UPDATE 0` replaces the whole value
       else match p with
         | .pair _ _ => do let r ← updateComb n element p; pure (s.push r)
-        | _ => .err
+        | _ => .stuck
   | .CAR => do
       let (p, s) ← s.pop1
       match p with
       | .pair a _ => pure (s.push a)
-      | _ => .err
+      | _ => .stuck
   | .CDR => do
       let (p, s) ← s.pop1
       match p with
       | .pair _ b => pure (s.push b)
-      | _ => .err
+      | _ => .stuck
   | .SOME => do let (a, s) ← s.pop1; pure (s.push (.some a))
   | .NONE t => pure (s.push (.none t))
   | .LEFT t => do let (a, s) ← s.pop1; pure (s.push (.left a t))
@@ -460,8 +458,8 @@ def step (env : Env) (i : Instr) (s : Stack) : Res Stack :=
   | .CONS => do
       let (a, l, s) ← s.pop2
       match l with
-      | .list t xs => if typeOf a = t then pure (s.push (.list t (a :: xs))) else .err
-      | _ => .err
+      | .list t xs => if typeOf a = t then pure (s.push (.list t (a :: xs))) else .stuck
+      | _ => .stuck
   | .EMPTY_MAP k v => pure (s.push (.map k v []))
   | .EMPTY_SET t => pure (s.push (.set t []))
   | .MEM => do let (a, b, s) ← s.pop2; let r ← execMem a b; pure (s.push r)
@@ -479,31 +477,31 @@ def step (env : Env) (i : Instr) (s : Stack) : Res Stack :=
       | .list _ xs => pure (s.push (.num .nat xs.length))
       | .map _ _ xs => pure (s.push (.num .nat xs.length))
       | .set _ xs => pure (s.push (.num .nat xs.length))
-      | _ => .err
+      | _ => .stuck
   | .ADD => do
       let (a, b, s) ← s.pop2
       match a, b with
       | .num ta x, .num tb y =>
         match addTy ta tb with
         | some t => do let r ← numFromValue t (x + y); pure (s.push r)
-        | none => .err
-      | _, _ => .err
+        | none => .stuck
+      | _, _ => .stuck
   | .SUB => do
       let (a, b, s) ← s.pop2
       match a, b with
       | .num ta x, .num tb y =>
         match subTy ta tb with
         | some t => do let r ← numFromValue t (x - y); pure (s.push r)
-        | none => .err
-      | _, _ => .err
+        | none => .stuck
+      | _, _ => .stuck
   | .MUL => do
       let (a, b, s) ← s.pop2
       match a, b with
       | .num ta x, .num tb y =>
         match mulTy ta tb with
         | some t => do let r ← numFromValue t (x * y); pure (s.push r)
-        | none => .err
-      | _, _ => .err
+        | none => .stuck
+      | _, _ => .stuck
   | .EDIV => do let (a, b, s) ← s.pop2; let r ← execEdiv a b; pure (s.push r)
   | .LSL => do let (a, b, s) ← s.pop2; let r ← execShift (fun x n => x <<< n) a b; pure (s.push r)
   | .LSR => do let (a, b, s) ← s.pop2; let r ← execShift (fun x n => x >>> n) a b; pure (s.push r)
@@ -513,54 +511,54 @@ def step (env : Env) (i : Instr) (s : Stack) : Res Stack :=
       match a with
       | .num .int x => pure (s.push (.num .int (-x)))
       | .num .nat x => pure (s.push (.num .int (-x)))
-      | _ => .err
+      | _ => .stuck
   | .ABS => do
       let (a, s) ← s.pop1
       match a with
       | .num .int x => pure (s.push (.num .nat (Int.ofNat x.natAbs)))
-      | _ => .err
+      | _ => .stuck
   | .ISNAT => do
       let (a, s) ← s.pop1
       match a with
       | .num .int x => pure (s.push (if x ≥ 0 then .some (.num .nat x) else .none .nat))
-      | _ => .err
+      | _ => .stuck
   | .INT => do
       let (a, s) ← s.pop1
       match a with
       | .num .nat x => pure (s.push (.num .int x))
-      | _ => .err
+      | _ => .stuck
   | .COMPARE => do
       let (a, b, s) ← s.pop2
       if typeOf a = typeOf b then
         match compareVals a b with
         | some c => pure (s.push (.num .int c))
-        | none => .err
-      else .err
+        | none => .stuck
+      else .stuck
   | .EQ => do
       let (a, s) ← s.pop1
-      match a with | .num .int x => pure (s.push (.bool (decide (x = 0)))) | _ => .err
+      match a with | .num .int x => pure (s.push (.bool (decide (x = 0)))) | _ => .stuck
   | .NEQ => do
       let (a, s) ← s.pop1
-      match a with | .num .int x => pure (s.push (.bool (decide (x ≠ 0)))) | _ => .err
+      match a with | .num .int x => pure (s.push (.bool (decide (x ≠ 0)))) | _ => .stuck
   | .LT => do
       let (a, s) ← s.pop1
-      match a with | .num .int x => pure (s.push (.bool (x < 0))) | _ => .err
+      match a with | .num .int x => pure (s.push (.bool (x < 0))) | _ => .stuck
   | .GT => do
       let (a, s) ← s.pop1
-      match a with | .num .int x => pure (s.push (.bool (x > 0))) | _ => .err
+      match a with | .num .int x => pure (s.push (.bool (x > 0))) | _ => .stuck
   | .LE => do
       let (a, s) ← s.pop1
-      match a with | .num .int x => pure (s.push (.bool (x ≤ 0))) | _ => .err
+      match a with | .num .int x => pure (s.push (.bool (x ≤ 0))) | _ => .stuck
   | .GE => do
       let (a, s) ← s.pop1
-      match a with | .num .int x => pure (s.push (.bool (x ≥ 0))) | _ => .err
+      match a with | .num .int x => pure (s.push (.bool (x ≥ 0))) | _ => .stuck
   | .NOT => do
       let (a, s) ← s.pop1
       match a with
       | .bool x => pure (s.push (.bool (!x)))
       | .num .nat x => pure (s.push (.num .int (-x - 1)))
       | .num .int x => pure (s.push (.num .int (-x - 1)))
-      | _ => .err
+      | _ => .stuck
   | .AND => do let (a, b, s) ← s.pop2; let r ← execAnd a b; pure (s.push r)
   | .OR => do let (a, b, s) ← s.pop2; let r ← execOr a b; pure (s.push r)
   | .XOR => do let (a, b, s) ← s.pop2; let r ← execXor a b; pure (s.push r)
@@ -570,18 +568,18 @@ def step (env : Env) (i : Instr) (s : Stack) : Res Stack :=
       | .list .string xs =>
         match strVals xs with
         | some ss => pure (s.push (.str ss.flatten))
-        | none => .err
+        | none => .stuck
       | .list .bytes xs =>
         match bytesVals xs with
         | some ss => pure (s.push (.bytes ss.flatten))
-        | none => .err
+        | none => .stuck
       | .str x => do
         let (b, s) ← s.pop1
-        match b with | .str y => pure (s.push (.str (x ++ y))) | _ => .err
+        match b with | .str y => pure (s.push (.str (x ++ y))) | _ => .stuck
       | .bytes x => do
         let (b, s) ← s.pop1
-        match b with | .bytes y => pure (s.push (.bytes (x ++ y))) | _ => .err
-      | _ => .err
+        match b with | .bytes y => pure (s.push (.bytes (x ++ y))) | _ => .stuck
+      | _ => .stuck
   | .SLICE => do
       let (o, l, v, s) ← s.pop3
       match o, l with
@@ -595,8 +593,8 @@ def step (env : Env) (i : Instr) (s : Stack) : Res Stack :=
         | .bytes x =>
           if start < x.length ∧ stop ≤ x.length then pure (s.push (.some (.bytes ((x.drop start).take len.toNat))))
           else pure (s.push (.none .bytes))
-        | _ => .err
-      | _, _ => .err
+        | _ => .stuck
+      | _, _ => .stuck
   | .AMOUNT => do let r ← numFromValue .mutez env.amount; pure (s.push r)
   | .BALANCE => do let r ← numFromValue .mutez env.balance; pure (s.push r)
   | .SENDER => pure (s.push (.atom .address env.sender))
@@ -610,7 +608,7 @@ def step (env : Env) (i : Instr) (s : Stack) : Res Stack :=
 mutual
   /-- `cls.execute(stack, stdout, context)`; `fuel` bounds loop iterations and nesting -/
   def exec (env : Env) : (fuel : Nat) → Instr → Stack → Res Stack
-    | 0, _, _ => .err
+    | 0, _, _ => .oof
     | fuel + 1, i, s =>
       match i with
       | .seq is => execSeq env fuel is s
@@ -626,25 +624,25 @@ mutual
           let (c, s) ← s.pop1
           match c with
           | .bool b => exec env fuel (if b then bt else bf) s
-          | _ => .err
+          | _ => .stuck
       | .IF_NONE bn bs => do
           let (o, s) ← s.pop1
           match o with
           | .none _ => exec env fuel bn s
           | .some v => exec env fuel bs (s.push v)
-          | _ => .err
+          | _ => .stuck
       | .IF_LEFT bl br => do
           let (o, s) ← s.pop1
           match o with
           | .left v _ => exec env fuel bl (s.push v)
           | .right _ v => exec env fuel br (s.push v)
-          | _ => .err
+          | _ => .stuck
       | .IF_CONS bc bn => do
           let (l, s) ← s.pop1
           match l with
           | .list t (x :: xs) => exec env fuel bc ((s.push (.list t xs)).push x)
           | .list _ [] => exec env fuel bn s
-          | _ => .err
+          | _ => .stuck
       | .LOOP body => do
           let (c, s) ← s.pop1
           match c with
@@ -652,7 +650,7 @@ mutual
               let s ← exec env fuel body s
               exec env fuel (.LOOP body) s
           | .bool false => pure s
-          | _ => .err
+          | _ => .stuck
       | .LOOP_LEFT body => do
           let (o, s) ← s.pop1
           match o with
@@ -660,14 +658,14 @@ mutual
               let s ← exec env fuel body (s.push v)
               exec env fuel (.LOOP_LEFT body) s
           | .right _ v => pure (s.push v)
-          | _ => .err
+          | _ => .stuck
       | .ITER body => do
           let (c, s) ← s.pop1
           match c with
           | .list _ xs => iterLoop env fuel body xs s
           | .map _ _ xs => iterLoop env fuel body xs s
           | .set _ xs => iterLoop env fuel body xs s
-          | _ => .err
+          | _ => .stuck
       | .MAP body => do
           let (c, s) ← s.pop1
           match c with
@@ -679,7 +677,7 @@ mutual
               let (items, s) ← mapLoop env fuel body true xs s
               if items.isEmpty then pure (s.push (.map k v xs))
               else do let r ← mapFromItems items; pure (s.push r)
-          | _ => .err
+          | _ => .stuck
       | .EXEC => do
           let (param, lam, s) ← s.pop2
           match lam with
@@ -687,34 +685,34 @@ mutual
             if typeOf param = a then do
               let ls ← exec env fuel body ⟨[param], 0⟩
               let (r, ls) ← ls.pop1
-              if typeOf r = b ∧ ls.items.isEmpty then pure (s.push r) else .err
-            else .err
-          | _ => .err
+              if typeOf r = b ∧ ls.items.isEmpty then pure (s.push r) else .stuck
+            else .stuck
+          | _ => .stuck
       | i => step env i s
   def execSeq (env : Env) : (fuel : Nat) → List Instr → Stack → Res Stack
     | _, [], s => .ok s
-    | 0, _ :: _, _ => .err
+    | 0, _ :: _, _ => .oof
     | fuel + 1, i :: is, s => do
         let s ← exec env fuel i s
         execSeq env fuel is s
   /-- `for elt in src: stack.push(elt); body.execute(...)` -/
   def iterLoop (env : Env) : (fuel : Nat) → Instr → List Val → Stack → Res Stack
     | _, _, [], s => .ok s
-    | 0, _, _ :: _, _ => .err
+    | 0, _, _ :: _, _ => .oof
     | fuel + 1, body, x :: xs, s => do
         let s ← exec env fuel body (s.push x)
         iterLoop env fuel body xs s
   /-- MAP's loop: push the element, run the body, pop the new element; for maps the key is kept -/
   def mapLoop (env : Env) : (fuel : Nat) → Instr → (isMap : Bool) → List Val → Stack → Res (List Val × Stack)
     | _, _, _, [], s => .ok ([], s)
-    | 0, _, _, _ :: _, _ => .err
+    | 0, _, _, _ :: _, _ => .oof
     | fuel + 1, body, isMap, x :: xs, s => do
         let s ← exec env fuel body (s.push x)
         let (y, s) ← s.pop1
         let item ← (if isMap then
             match x with
             | .pair k _ => Res.ok (Val.pair k y)
-            | _ => Res.err
+            | _ => Res.stuck
           else Res.ok y)
         let (rest, s) ← mapLoop env fuel body isMap xs s
         pure (item :: rest, s)
